@@ -369,7 +369,7 @@ end
 
 mutual
   /-- the parameter's components fit the type: none for an elementary (array of) type, one per member with distinct
-      names for a tuple; arrays nest at most 64 deep (the depth `processField` descends) -/
+      names for a tuple -/
   def Shape : List Param → Ty → Prop
     | comps, .elem _ _ _ _ => comps = []
     | comps, .farr c _ => Shape comps c
@@ -377,7 +377,7 @@ mutual
     | comps, .tuple _ ts => ShapeL comps ts ∧ (comps.map Param.name).Nodup
   def ShapeL : List Param → List Ty → Prop
     | [], [] => True
-    | p :: ps, t :: ts => Shape p.components t ∧ arrayDepth t ≤ 64 ∧ ShapeL ps ts
+    | p :: ps, t :: ts => Shape p.components t ∧ ShapeL ps ts
     | _, _ => False
 end
 
@@ -470,7 +470,7 @@ theorem schemaOfMembers_keys : ∀ (ps : List Param) (ts : List Ty) (i : Nat), S
     rw [ShapeL] at h
     rw [schemaOfMembers]
     simp only [List.map_cons]
-    rw [schemaOfMembers_keys ps ts (i + 1) h.2.2]
+    rw [schemaOfMembers_keys ps ts (i + 1) h.2]
   | [], _ :: _, _, h => by simp [ShapeL] at h
   | _ :: _, [], _, h => by simp [ShapeL] at h
 
@@ -493,9 +493,34 @@ theorem needMax_ge2 : ∀ ts, 2 ≤ needMax ts
   | [] => by simp [needMax]
   | t :: ts => by rw [needMax]; have := need_ge2 t; omega
 
+theorem size_withDetails (s : Schema) (x : Option Details) : (s.withDetails x).size = s.size := by
+  cases s; simp [Schema.withDetails, Schema.size]
+
+/-- the schema generated for a type is larger than the type's array nesting: the descent of `innermostItems`, which
+    gets `max 64 (size of items)` units of fuel, always reaches the innermost schema -/
+theorem depth_lt_size (d : Details) (comps : List Param) : ∀ t : Ty, arrayDepth t < (schemaOf d comps t).size
+  | .elem info _ _ _ => by
+    simp only [arrayDepth]
+    cases hs : schemaOf d comps (.elem info _ _ _) with
+    | mk a b c p i => simp [Schema.size]; omega
+  | .tuple ns ts => by
+    simp only [arrayDepth]
+    cases hs : schemaOf d comps (.tuple ns ts) with
+    | mk a b c p i => simp [Schema.size]; omega
+  | .farr c k => by
+    have ih := depth_lt_size d comps c
+    rw [schemaOf]
+    simp only [arrayDepth, Schema.size, propsSize, optSize, size_withDetails]
+    omega
+  | .darr c => by
+    have ih := depth_lt_size d comps c
+    rw [schemaOf]
+    simp only [arrayDepth, Schema.size, propsSize, optSize, size_withDetails]
+    omega
+
 /-- converting one member's schema back, given that its components convert back -/
 theorem field_of_comps (t : Ty) (name : String) (d d' : Details) (comps : List Param) (f : Nat)
-    (hdepth : arrayDepth t ≤ 64) (hsh : Shape comps t)
+    (hsh : Shape comps t)
     (hcomps : buildParams f ((schemaOf d comps (core t)).props) = .ok comps)
     (h1 : d'.type = d.type) (h2 : d'.indexed = d.indexed) (h3 : d'.internalType = d.internalType) :
     processField (f + 1) name (some ((schemaOf d comps t).withDetails (some d'))) =
@@ -525,7 +550,7 @@ theorem field_of_comps (t : Ty) (name : String) (d d' : Details) (comps : List P
     rw [ht, hi]
     have hne : (("array" : String) == "object") = false := by decide
     simp only [hne, Bool.false_eq_true, if_false, beq_self_eq_true, if_true, facts.2.1]
-    rw [innermost_core d comps c _ (by simp [arrayDepth] at hdepth; omega)]
+    rw [innermost_core d comps c _ (by have := depth_lt_size d comps c; simp only [optSize, size_withDetails]; omega)]
     simp only [withDetails_props]
     have : core (.farr c k) = core c := rfl
     rw [this] at hcomps
@@ -537,7 +562,7 @@ theorem field_of_comps (t : Ty) (name : String) (d d' : Details) (comps : List P
     rw [ht, hi]
     have hne : (("array" : String) == "object") = false := by decide
     simp only [hne, Bool.false_eq_true, if_false, beq_self_eq_true, if_true, facts.2.1]
-    rw [innermost_core d comps c _ (by simp [arrayDepth] at hdepth; omega)]
+    rw [innermost_core d comps c _ (by have := depth_lt_size d comps c; simp only [optSize, size_withDetails]; omega)]
     simp only [withDetails_props]
     have : core (.darr c) = core c := rfl
     rw [this] at hcomps
@@ -604,7 +629,7 @@ mutual
               | cons _ _ => simp [ShapeL] at h
             | cons p ps ih => intro ts h; cases ts with
               | nil => simp [ShapeL] at h
-              | cons t ts => rw [ShapeL] at h; simp [ih ts h.2.2]
+              | cons t ts => rw [ShapeL] at h; simp [ih ts h.2]
           exact this comps ts hsh.1
         have := members_back ts comps [] f hsh.1 (by omega)
         simp only [List.length_nil, List.map_nil, List.nil_append] at this
@@ -638,7 +663,7 @@ mutual
           | zero => have := needMax_ge2 ts; have := need_ge2 t; simp at hf
           | succ g =>
             have hfield := field_of_comps t p.name (detailsOf p) { detailsOf p with index := some (pre.length : Int) } p.components g
-              hsh.2.1 hsh.1 (comps_back t (detailsOf p) p.components g hsh.1 (by simp at hf; omega)) rfl rfl rfl
+              hsh.1 (comps_back t (detailsOf p) p.components g hsh.1 (by simp at hf; omega)) rfl rfl rfl
             rw [hfield]
             simp only [facts.1, if_true, withDetails_details, Option.bind_some]
             have hdet : (detailsOf p).type = p.type ∧ (detailsOf p).indexed = p.indexed ∧ (detailsOf p).internalType = p.internalType :=
@@ -647,7 +672,7 @@ mutual
             simp only [List.length_cons]
             rw [placeAt_next pre p ps.length]
             simp only []
-            have hrec := members_back ts ps (pre ++ [p]) (g + 1) hsh.2.2 (by simp at hf; omega)
+            have hrec := members_back ts ps (pre ++ [p]) (g + 1) hsh.2 (by simp at hf; omega)
             simp only [List.length_append, List.length_singleton] at hrec
             rw [hrec]
             simp
@@ -656,15 +681,15 @@ end
 /-- **ABI → FFI → ABI.** The schema generated for a parameter converts back to exactly that parameter: same name, type
     string, indexed flag, internal type and — recursively, through arrays and tuples — the same components in the same
     order; hence the same signature. Hypotheses: the parameter's components fit its type (`Shape`: none below an
-    elementary type, one per tuple member with distinct names), arrays nest at most 64 deep, and the fuel covers the
-    type (`need`). -/
-theorem abi_ffi_abi (p : Param) (t : Ty) (fuel : Nat) (hsh : Shape p.components t) (hdepth : arrayDepth t ≤ 64)
+    elementary type, one per tuple member with distinct names) and the fuel covers the type (`need`). Arrays may nest
+    to any depth (`depth_lt_size`: the fuel `processField` gives `innermostItems` exceeds the nesting). -/
+theorem abi_ffi_abi (p : Param) (t : Ty) (fuel : Nat) (hsh : Shape p.components t)
     (hf : need t ≤ fuel) :
     processField fuel p.name (some (schemaOf (detailsOf p) p.components t)) = .ok p := by
   cases fuel with
   | zero => have := need_ge2 t; omega
   | succ f =>
-    have h := field_of_comps t p.name (detailsOf p) (detailsOf p) p.components f hdepth hsh
+    have h := field_of_comps t p.name (detailsOf p) (detailsOf p) p.components f hsh
       (comps_back t (detailsOf p) p.components f hsh hf) rfl rfl rfl
     have hw : (schemaOf (detailsOf p) p.components t).withDetails (some (detailsOf p)) = schemaOf (detailsOf p) p.components t := by
       have := schemaOf_details (detailsOf p) p.components t
@@ -685,10 +710,9 @@ theorem abi_ffi_abi (p : Param) (t : Ty) (fuel : Nat) (hsh : Shape p.components 
 example (u s : ElemInfo) :
     let p : Param := .mk "pt" "tuple[]" false "" [.mk "x" "uint256" false "" [], .mk "y" "string" false "" []]
     let t : Ty := .darr (.tuple ["x", "y"] [.elem u "256" 256 0, .elem s "" 0 0])
-    Shape p.components t ∧ arrayDepth t ≤ 64 ∧ need t ≤ 7 := by
-  refine ⟨?_, ?_, ?_⟩
-  · simp [Shape, ShapeL, Param.components, Param.name, arrayDepth]
-  · simp [arrayDepth]
+    Shape p.components t ∧ need t ≤ 7 := by
+  refine ⟨?_, ?_⟩
+  · simp [Shape, ShapeL, Param.components, Param.name]
   · simp [need, needMax]
 
 end FFS.Props.C20
